@@ -63,15 +63,24 @@ def composeinfo(D, version, rng):
     comp["id"] = "%s-%s-%s%s.%d" % (rel["short"] if rel["short"] and "\n" not in rel["short"] else "X", "1",
                                    comp["date"], domains.COMPOSE_TYPE_SUFFIX[comp["type"]], comp["respin"])
     if v < (1, 0):
-        # variants related only by UID prefix: depth <= 2, no dashed top-level UID whose head is another variant
+        # variants related only by UID prefix: depth <= 2; a dashed top-level UID ('Server-Tools', id 'ServerTools') is
+        # top-level there iff the part before its last dash is not itself a variant - with or without children of its own
+        top_uids = set(t["uid"] for t in D["variants"])
         tops = []
         for t in D["variants"]:
-            if "-" in t["uid"]:
+            if "-" in t["uid"] and any(t["uid"].startswith(u + "-") for u in top_uids if u != t["uid"]):
                 continue
             for c in t["children"]:
                 c["children"] = []
             tops.append(t)
-        D["variants"] = tops
+        # no kept variant may look like a descendant of another top-level one
+        keep = []
+        for t in tops:
+            others = [n["uid"] for o in tops if o is not t for n in [o] + o["children"]]
+            if any(u.startswith(t["uid"] + "-") for u in others) or any(t["uid"].startswith(u + "-") for u in others):
+                continue
+            keep.append(t)
+        D["variants"] = keep
     for n in FC.iter_nodes(D["variants"]):
         if n["type"] == "layered-product" and n["release"]:
             if v <= (1, 1):
